@@ -130,9 +130,20 @@ static void xv (int64_t a, int64_t b) { ev_start (9); ev_arg (1, a); ev_arg (0, 
 static uint8_t xu8 (int64_t a) { ev_start (10); ev_arg (1, a); ev_end (); return (uint8_t) next_oracle (); }
 static int16_t xi16 (int64_t a) { ev_start (11); ev_arg (1, a); ev_end (); return (int16_t) next_oracle (); }
 
+/* six register arguments, then narrow integer arguments passed on the stack */
+static int64_t xs (int64_t a, int64_t b, int64_t c, int64_t d, int64_t e, int64_t f, int8_t g, uint16_t h,
+                   int32_t i, uint32_t j, uint8_t k, int16_t l) {
+  ev_start (12);
+  ev_arg (1, a); ev_arg (0, b); ev_arg (0, c); ev_arg (0, d); ev_arg (0, e); ev_arg (0, f);
+  ev_arg (0, (uint64_t) (int64_t) g); ev_arg (0, h); ev_arg (0, (uint64_t) (int64_t) i); ev_arg (0, j);
+  ev_arg (0, k); ev_arg (0, (uint64_t) (int64_t) l);
+  ev_end ();
+  return (int64_t) next_oracle ();
+}
+
 static struct { const char *name; void *addr; } externals[] = {
   {"ex0", x0}, {"ex1", x1}, {"ex2", x2}, {"ex3", x3}, {"ex8", x8}, {"exn", xn}, {"exd", xd},
-  {"exf", xf}, {"exm", xm}, {"exv", xv}, {"exu8", xu8}, {"exi16", xi16}, {NULL, NULL}};
+  {"exf", xf}, {"exm", xm}, {"exv", xv}, {"exu8", xu8}, {"exi16", xi16}, {"exs", xs}, {NULL, NULL}};
 
 static void err_func (MIR_error_type_t t, const char *fmt, ...) {
   va_list ap;
